@@ -26,3 +26,6 @@ def run(ctx):
     # cancelling and popping go through the event list: its heap discipline is a necessary condition here too (shared rule, same keys as C01)
     for cname in ctx.prog.subclasses('EventListInterface'):
         c01.check_eventlist(ctx, cname)
+    # ... and ties are broken by the priority / creation order the events were given (shared rules with C01)
+    c01.r13_key_immutable(ctx)
+    c01.r14_counter(ctx)
